@@ -555,3 +555,150 @@ pub fn prog_text(p: &Prog) -> String {
     }
     s
 }
+
+// ---------------------------------------------------------------- structural shrinking
+
+/// Every program that differs from `p` by one deletion or simplification (used by the second shrinking stage).
+fn ppush(out: &mut Vec<Prog>, p: &Prog, f: &dyn Fn(&mut Prog)) {
+    let mut q = p.clone();
+    f(&mut q);
+    if q != *p {
+        out.push(q);
+    }
+}
+fn tpush(out: &mut Vec<Prog>, p: &Prog, mi: usize, ii: usize, f: &dyn Fn(&mut TypeDef)) {
+    let mut q = p.clone();
+    if let Item::Type(td) = &mut q.mods[mi].items[ii] {
+        f(td);
+    }
+    if q != *p {
+        out.push(q);
+    }
+}
+
+pub fn prog_candidates(p: &Prog) -> Vec<Prog> {
+    let mut out: Vec<Prog> = vec![];
+    // whole modules (and imports that mention them)
+    if p.mods.len() > 1 {
+        for mi in 0..p.mods.len() {
+            ppush(&mut out, p, &|q: &mut Prog| {
+                let path = q.mods[mi].path.clone();
+                q.mods.remove(mi);
+                for m in q.mods.iter_mut() {
+                    m.uses.retain(|u| *u != path && u[..u.len().saturating_sub(1)] != path[..]);
+                }
+            });
+        }
+    }
+    for mi in 0..p.mods.len() {
+        let m = &p.mods[mi];
+        for ii in (0..m.items.len()).rev() {
+            ppush(&mut out, p, &|q: &mut Prog| {
+                let name = q.mods[mi].items[ii].name().to_string();
+                q.mods[mi].items.remove(ii);
+                q.mods[mi].impls.retain(|im| im.ty != name);
+            });
+        }
+        for k in (0..m.impls.len()).rev() {
+            ppush(&mut out, p, &|q: &mut Prog| {
+                q.mods[mi].impls.remove(k);
+            });
+            for fi in (0..m.impls[k].funcs.len()).rev() {
+                ppush(&mut out, p, &|q: &mut Prog| {
+                    q.mods[mi].impls[k].funcs.remove(fi);
+                });
+                for ai in (0..m.impls[k].funcs[fi].args.len()).rev() {
+                    ppush(&mut out, p, &|q: &mut Prog| {
+                        q.mods[mi].impls[k].funcs[fi].args.remove(ai);
+                    });
+                }
+                ppush(&mut out, p, &|q: &mut Prog| q.mods[mi].impls[k].funcs[fi].ret = None);
+                ppush(&mut out, p, &|q: &mut Prog| q.mods[mi].impls[k].funcs[fi].cc = None);
+                ppush(&mut out, p, &|q: &mut Prog| q.mods[mi].impls[k].funcs[fi].doc.clear());
+            }
+        }
+        for k in (0..m.ext_vals.len()).rev() {
+            ppush(&mut out, p, &|q: &mut Prog| {
+                q.mods[mi].ext_vals.remove(k);
+            });
+        }
+        for k in (0..m.ext_types.len()).rev() {
+            ppush(&mut out, p, &|q: &mut Prog| {
+                q.mods[mi].ext_types.remove(k);
+            });
+        }
+        for k in (0..m.backends.len()).rev() {
+            ppush(&mut out, p, &|q: &mut Prog| {
+                q.mods[mi].backends.remove(k);
+            });
+        }
+        for k in (0..m.uses.len()).rev() {
+            ppush(&mut out, p, &|q: &mut Prog| {
+                q.mods[mi].uses.remove(k);
+            });
+        }
+        ppush(&mut out, p, &|q: &mut Prog| q.mods[mi].doc.clear());
+        for ii in 0..m.items.len() {
+            match &m.items[ii] {
+                Item::Type(t) => {
+                    for fi in (0..t.fields.len()).rev() {
+                        tpush(&mut out, p, mi, ii, &|td: &mut TypeDef| {
+                            td.fields.remove(fi);
+                        });
+                        tpush(&mut out, p, mi, ii, &|td: &mut TypeDef| td.fields[fi].addr = None);
+                        tpush(&mut out, p, mi, ii, &|td: &mut TypeDef| td.fields[fi].doc.clear());
+                        tpush(&mut out, p, mi, ii, &|td: &mut TypeDef| td.fields[fi].base = false);
+                        tpush(&mut out, p, mi, ii, &|td: &mut TypeDef| td.fields[fi].ty = Ty::n("u8"));
+                    }
+                    if let Some(v) = &t.vft {
+                        tpush(&mut out, p, mi, ii, &|td: &mut TypeDef| td.vft = None);
+                        for fi in (0..v.funcs.len()).rev() {
+                            tpush(&mut out, p, mi, ii, &|td: &mut TypeDef| {
+                                td.vft.as_mut().unwrap().funcs.remove(fi);
+                            });
+                            tpush(&mut out, p, mi, ii, &|td: &mut TypeDef| td.vft.as_mut().unwrap().funcs[fi].index = None);
+                            tpush(&mut out, p, mi, ii, &|td: &mut TypeDef| td.vft.as_mut().unwrap().funcs[fi].doc.clear());
+                            tpush(&mut out, p, mi, ii, &|td: &mut TypeDef| td.vft.as_mut().unwrap().funcs[fi].cc = None);
+                            tpush(&mut out, p, mi, ii, &|td: &mut TypeDef| td.vft.as_mut().unwrap().funcs[fi].ret = None);
+                            for ai in (1..v.funcs[fi].args.len()).rev() {
+                                tpush(&mut out, p, mi, ii, &|td: &mut TypeDef| {
+                                    td.vft.as_mut().unwrap().funcs[fi].args.remove(ai);
+                                });
+                            }
+                        }
+                        tpush(&mut out, p, mi, ii, &|td: &mut TypeDef| td.vft.as_mut().unwrap().size = None);
+                    }
+                    tpush(&mut out, p, mi, ii, &|td: &mut TypeDef| td.size = None);
+                    tpush(&mut out, p, mi, ii, &|td: &mut TypeDef| td.align = None);
+                    tpush(&mut out, p, mi, ii, &|td: &mut TypeDef| td.singleton = None);
+                    tpush(&mut out, p, mi, ii, &|td: &mut TypeDef| td.doc.clear());
+                    tpush(&mut out, p, mi, ii, &|td: &mut TypeDef| {
+                        td.copyable = false;
+                        td.cloneable = false;
+                        td.defaultable = false;
+                    });
+                    tpush(&mut out, p, mi, ii, &|td: &mut TypeDef| td.packed = false);
+                    tpush(&mut out, p, mi, ii, &|td: &mut TypeDef| td.sty = 0);
+                }
+                Item::Enum(e) => {
+                    for vi in (0..e.variants.len()).rev() {
+                        if e.variants.len() > 1 {
+                            ppush(&mut out, p, &|q: &mut Prog| {
+                                if let Item::Enum(en) = &mut q.mods[mi].items[ii] {
+                                    en.variants.remove(vi);
+                                }
+                            });
+                        }
+                    }
+                    ppush(&mut out, p, &|q: &mut Prog| {
+                        if let Item::Enum(en) = &mut q.mods[mi].items[ii] {
+                            en.doc.clear();
+                            en.singleton = None;
+                        }
+                    });
+                }
+            }
+        }
+    }
+    out
+}
